@@ -947,6 +947,9 @@ func (s *Store[K, V]) Recover(version uint64, reader io.Reader) error {
 	block := &DataBlock[any]{}
 	s.policyMu.Lock()
 	defer s.policyMu.Unlock()
+	// the metadata block must come first: it carries the version
+	// and the clock origin that entry deadlines are relative to
+	var metaLoaded bool
 	for {
 		// reset block first
 		block.Data = nil
@@ -962,11 +965,15 @@ func (s *Store[K, V]) Recover(version uint64, reader io.Reader) error {
 		}
 
 		reader := bytes.NewReader(block.Data)
+		if metaLoaded == (block.Type == 1) {
+			return errors.New("metadata block missing or misplaced")
+		}
 		if block.Type == 255 {
 			break
 		}
 		switch block.Type {
 		case 1: // metadata
+			metaLoaded = true
 			metaDecoder := gob.NewDecoder(reader)
 			m := &StoreMeta{}
 			err = metaDecoder.Decode(m)
